@@ -1,6 +1,9 @@
 """C12 — symbolic calldata is a fully general, well-formed ABI encoding.
 
-Obligations: T-abienc (calldata.py -> Gen/GenAbiEnc.v), Props/C12.vo, lint.
+Obligations: T-abienc (calldata.py -> Gen/GenAbiEnc.v), T-dynparams (sevm.py -> Gen/GenDynParams.v:
+Concretization.process_dyn_params, the decision chain of SEVM.calldataload, the concretization given by
+Path.branch / Path.extend_path),
+Props/C12.vo, lint.
 Tie X-C12, on generated (signature, length configuration, concrete argument) cases:
   * model vs implementation: parse_tuple_type result, the chunk structure of mk_calldata's
     ByteVec (kind, bit size, constant, symbol label without uid, symbol counter), the
@@ -11,7 +14,12 @@ Tie X-C12, on generated (signature, length configuration, concrete argument) cas
     (binding symbols byte by byte; a conflict, a constant where a leaf should be free, a
     size symbol whose value is not a configured candidate, a symbol used twice or a
     missing candidate branch is a failing input); the instantiated bytes are decoded by
-    the Python decoder and by the extracted Coq `decode`.
+    the Python decoder and by the extracted Coq `decode`;
+  * several calldata in one path (harness/props/C12_path.py): sessions of 1-4 signatures registered
+    in one real Path by a script of register / extend_path / branch / fix / skip events, and the real
+    svm.createCalldata implementation followed by real SEVM runs -- every size symbol of every
+    registered calldata must still branch over its configured candidates; against the specification
+    and against the extracted path model (prun).
 """
 import os
 import re
@@ -19,9 +27,10 @@ from multiprocessing import Pool
 
 from harness import common
 from harness.common import Model
+from harness.props import C12_path as PS
 
 PID = "C12"
-TRANSLATORS = ["T-abienc"]
+TRANSLATORS = ["T-abienc", "T-dynparams"]
 KNOWN = []
 
 PARTIAL = None
@@ -866,6 +875,43 @@ def check_case(rep, case, obs, mobs, model, r, stats):
     return fails
 
 
+def check_sessions(rep, sessions, sobs, m):
+    nbad = 0
+    ok_idx = []
+    for i, (x, o) in enumerate(zip(sessions, sobs)):
+        kinds, nontrivial = PS.classify(x, o)
+        for k in kinds:
+            rep.count("session", k)
+        rep.case(PS.public(x), nontrivial=nontrivial)
+        bad = PS.check_spec(x, o)
+        for kind, what, sig in bad:
+            nbad += 1
+            if nbad <= 6:
+                rep.fail(kind, what, case=PS.public(x), sig=sig)
+        if not bad:
+            ok_idx.append(i)
+    if m is None:
+        return nbad
+    # the model's symbol indices (first pass, fix events left out), then the full event list
+    first = m.parallel_batch([PS.model_call(sessions[i], sobs[i]) for i in ok_idx]) if ok_idx else []
+    second_idx, calls = [], []
+    parsed = {}
+    for i, res in zip(ok_idx, first):
+        mo = PS.parse_model(res)
+        parsed[i] = mo
+        if "error" not in mo and any(ev[0] == "fix" for ev in sobs[i]["events"]):
+            second_idx.append(i)
+            calls.append(PS.model_call(sessions[i], sobs[i], [d[2] for d in mo["dyn"]]))
+    for i, res in zip(second_idx, m.parallel_batch(calls) if calls else []):
+        parsed[i] = PS.parse_model(res)
+    for i in ok_idx:
+        for what in PS.check_model(sessions[i], sobs[i], parsed[i]):
+            nbad += 1
+            if nbad <= 6:
+                rep.fail("broken-tie", what, case=PS.public(sessions[i]))
+    return nbad
+
+
 def _words_of(items, raw_names):
     """per 32-byte word of the calldata: ('size', raw name) | ('word', raw name) | ('con', z) | ('data',)"""
     out, names = [], iter(raw_names)
@@ -1045,6 +1091,21 @@ def run(rep, tier):
                 if nbad <= 12:
                     rep.fail("broken-tie", f"calldataload: model branches {str(got)[:120]} implementation {str(want)[:120]}", case=pub)
         rep.coverage["calldataload_model_runs"] = len(lcalls)
+    # several calldata in one path (harness/props/C12_path.py): specification and path model vs the real
+    # Path / Concretization / calldataload / createCalldata
+    t1 = time.time()
+    nsess = 60 if tier == "quick" else 2500
+    sessions = [dict(x) for x in PS.CORPUS]
+    while len(sessions) < nsess:
+        sessions.append(PS.gen_session(r, tier))
+    if tier == "quick":
+        sobs = [PS.impl_session(x) for x in sessions]
+    else:
+        with Pool(min(16, os.cpu_count() or 4)) as pool:
+            sobs = pool.map(PS.impl_session, sessions, chunksize=8)
+    nbad += check_sessions(rep, sessions, sobs, m)
+    rep.coverage["sessions"] = len(sessions)
+    rep.coverage["sessions_s"] = round(time.time() - t1, 1)
     # extracted Coq decoder on the instantiated calldata
     if m and stats["decode_calls"]:
         calls = stats["decode_calls"] if tier != "quick" else stats["decode_calls"][:400]
@@ -1080,7 +1141,8 @@ def run(rep, tier):
     rep.coverage["instances_decoded"] = stats["instances"]
     rep.coverage["traces_validated_against_impl"] = len(cases) + len(pcases) if m else 0
     return rep.finish(
-        checker_cmd="make -C coq Props/C12.vo (coq_makefile, coqc 8.16.1) after regenerating coq/Gen/GenAbiEnc.v from /repo/src/halmos/calldata.py",
+        checker_cmd="make -C coq Props/C12.vo (coq_makefile, coqc 8.16.1) after regenerating coq/Gen/GenAbiEnc.v from /repo/src/halmos/calldata.py "
+                    "and coq/Gen/GenDynParams.v from /repo/src/halmos/sevm.py",
         trusted_base=common.TRUSTED_BASE_COMMON,
         assumptions=ASSUMPTIONS,
         partial=PARTIAL,
@@ -1089,7 +1151,14 @@ def run(rep, tier):
              "symbol counter absent or starting at 0/7/98); per case: parse_tuple_type, mk_calldata chunk list, EncodingResult size/static, dyn_params, "
              "SEVM.calldataload on every 32-byte word (fake Exec, real Concretization), and 2 random admitted argument tuples unified with the calldata and decoded "
              "by the spec decoder (Python and extracted Coq). Non-trivial = the signature has a dynamic or composite component. "
-             "Plus parse cases: fixed malformed corpus + mutated type strings through parse_tuple_type vs the model's parse.",
+             "Plus parse cases: fixed malformed corpus + mutated type strings through parse_tuple_type vs the model's parse. "
+             "Plus sessions (several calldata in one path): 1-4 signatures (each with probability 0.7 given a bytes/string/T[] parameter, 15% view) and one length configuration; "
+             "mode path (70%): a random script of events on the real Path/Concretization -- mk_calldata + process_dyn_params per signature (one of them possibly twice), "
+             "extend_path into a fresh Path, branch on a fresh boolean, fixing a registered size symbol to one of its candidates by branch+activate (the path branched from is then "
+             "loaded again: it must not see the fix), skipped symbol ids; symbol counter absent or starting at 0/7/98 -- then the real SEVM.calldataload on every word of every registered calldata "
+             "in the final path (successors made by the real Path.branch must keep the candidates of the other size symbols); mode cheat (30%): the real create_calldata_generic on a hand-made "
+             "build output, then a real SEVM run of PUSH4 off CALLDATALOAD STOP at every length word (and two other words) of every produced calldata on a path extending the caller's. "
+             "A session is non-trivial when at least two of its registered calldata have dynamic parameters.",
     )
 
 
@@ -1122,6 +1191,19 @@ def replay(rep, body):
                 print(f"  {kind}: {what} {sig}")
         elif "parse" in case:
             print("parse:", case["parse"], "->", impl_parse(case["parse"]))
+        elif "session" in case:
+            x = dict(case["session"])
+            x["funs"] = [{"type": _tuplify(f["type"]), "view": f["view"]} for f in x["funs"]]
+            o = PS.impl_session(x)
+            print("session:", x)
+            print("events:", o.get("events"), "registered:", [(d[0], d[1], d[5]) for d in o.get("regs", [])] or o.get("registered"), "error:", o.get("error"))
+            for c in o.get("cds", []):
+                print("  calldata of", PS.sig_string(x["funs"][c["fun"]], c["fun"]))
+                for off, kind, brs in c.get("loads", []):
+                    if kind[0] == "sym":
+                        print(f"    CALLDATALOAD({off}) {kind[1]}: {brs}")
+            for kind, what, sig in PS.check_spec(x, o):
+                print(f"  {kind}: {what} {sig}")
     return 0
 
 
